@@ -343,6 +343,11 @@ func (p *Policy) sanitize(r io.Reader, w io.Writer) error {
 		case html.EndTagToken:
 
 			if precededByDroppedVoidElement == token.Data {
+				if p.addSpaces {
+					if _, err := buff.WriteString(" "); err != nil {
+						return err
+					}
+				}
 				continue
 			}
 
